@@ -10,6 +10,10 @@ CLAIMED = {
          "seeded simulation: recording transport + reference encoder oracle", "4 C03"),
  "C04": ("lock-step simulation: peer answers from the reply mutation grammar; completion compared with model::pdu::decode_reply",
          "seeded simulation: reply-grammar fault injection by the peer; reference decoder oracle", "4 C04"),
+ "C06": ("lock-step simulation of the real RTU server over the simulated serial line: corrupted frames (1/2-bit, <=16-bit bursts, CRC variants), chunkings, commands mid-frame; line bytes and handler journal equal model::rtu (independent bitwise CRC) composed with model::server; reopen schedule exact",
+         "seeded simulation with line-corruption fault injection; reference-model oracle", "4 C06"),
+ "C17": ("same RTU runs (1/5 of frames to unit 0) plus the TCP runs: silence for unconfigured ids, broadcast writes applied once to every unit and never answered, broadcast reads ignored",
+         "seeded simulation; reference-model oracle over unit-id space", "4 C17"),
  "C10": ("exact lock-step comparison of the real client task with model::client over seeded action/fault sequences (replies, timeouts, I/O errors, enable/disable, shutdown, handle drop, task abort, clock jumps) in virtual time; exactly-once and result class per request",
          "seeded simulation with fault injection; refinement against an executable reference model", "4 C10"),
  "C11": ("same lock-step runs: wire frames and tx ids vs model; stale/duplicate/future/unsolicited frames never complete a request; 66 000-request wrap run",
